@@ -204,3 +204,66 @@ table('build-context-lock-discipline', props=('C20',), rows=_context_writes_rows
       reads=('sc3/**/*.py',),
       note='isolation of concurrent builds rests on every write of the context being inside '
            '`with main._def_build_lock:`')
+
+
+# ---- which definition a new unit belongs to (C20: "unit generators created afterwards outside any build belong to no
+# definition") -------------------------------------------------------------------------------------------------------------------
+# SynthObject / OutputProxy / WidthFirstUGen._add_to_synth: the unit's definition is EXACTLY the build context of the
+# moment (None outside a build); it registers with that definition - once - iff there is one (an output proxy never
+# registers: it is part of its source unit); a width-first unit is also entered in the definition's width-first list.
+UF = 'sc3/synth/ugen.py'
+HAS_CTX = z3.Bool('a_build_is_in_progress')
+
+
+def ats_getattr(eng, obj, name, st, node):
+    if obj.k == 'ref' and obj.oid == 'main' and name == '_current_synthdef':
+        return [(st, V('ref', cls='CtxDef', oid='ctx', extra={'maybe_none': z3.Not(HAS_CTX), 'truth': HAS_CTX}))]
+    if obj.k == 'ref' and obj.cls == 'CtxDef' and name == '_add_ugen':
+        def add(eng, a, kw, st, node):
+            st.trace.append(('registered', tuple(a)))
+            return [(st, NONE)]
+        return [(st, V('func', py=('spec', add)))]
+    if obj.k == 'ref' and obj.cls == 'CtxDef' and name == '_width_first_ugens':
+        return [(st, V('obj', oid='ctx.width-first'))]
+    if obj.k == 'obj' and obj.oid == 'ctx.width-first' and name == 'append':
+        def app(eng, a, kw, st, node):
+            st.trace.append(('width-first', tuple(a)))
+            return [(st, NONE)]
+        return [(st, V('func', py=('spec', app)))]
+    return None
+
+
+def ats_compare(eng, op, a, b, st, node):
+    if isinstance(op, (ast.Is, ast.IsNot)):
+        for p, q in ((a, b), (b, a)):
+            if p.k == 'ref' and p.extra and 'maybe_none' in p.extra and q.k == 'none':
+                r = p.extra['maybe_none']
+                return z3.Not(r) if isinstance(op, ast.IsNot) else r
+    return None
+
+
+def ats_post(registers, width_first=False):
+    def post(c):
+        sd = c.st.objs.get('self', {}).get('_synthdef')
+        reg = [e for e in c.trace if e[0] == 'registered']
+        wf = [e for e in c.trace if e[0] == 'width-first']
+        if sd is None or not (sd.k == 'ref' and sd.oid == 'ctx'):
+            return z3.BoolVal(False)                                           # the context of the moment, nothing else
+        me = lambda e: len(e[1]) == 1 and e[1][0].k == 'ref' and e[1][0].oid == 'self'
+        if not registers:
+            return z3.BoolVal(not reg and not wf)
+        cl = [z3.BoolVal(len(reg) == 1 and me(reg[0])) == HAS_CTX, z3.BoolVal(not reg) == z3.Not(HAS_CTX)]
+        if width_first:
+            cl += [z3.BoolVal(len(wf) == 1 and me(wf[0])) == HAS_CTX, z3.BoolVal(not wf) == z3.Not(HAS_CTX)]
+        else:
+            cl.append(z3.BoolVal(not wf))
+        return z3.And(*cl)
+    return post
+
+
+for _cls, _reg, _wf in (('SynthObject', True, False), ('OutputProxy', False, False), ('WidthFirstUGen', True, True)):
+    contract(UF, _cls + '._add_to_synth', props=('C20',), params={'self': 'self'},
+             ensures=[('belongs-to-the-build-context-of-the-moment;registered-once-iff-there-is-one', ats_post(_reg, _wf))],
+             fields={_cls: {'_synthdef': 'obj'}, 'Main': MAIN_FIELDS, 'TimeThread': TT_FIELDS, 'CtxDef': {}},
+             class_modules={_cls: UF, 'CtxDef': F}, hooks={'getattr': ats_getattr, 'compare': ats_compare},
+             modifies=[('self', '_synthdef')], native=False)
